@@ -1,13 +1,183 @@
 import Ecal.Model.Engine
+import Ecal.Lemmas.EngineBasic
+import Ecal.Lemmas.EngineScope
+import Ecal.Lemmas.EngineRoot
 /-!
 # C01 — exactly the matching, in-scope, unsuppressed rules fire once per event
+
+Theorems about `Ecal.Engine` (the model of engine/rule.go, util.go, processor.go that the driver
+runs). `rx` — the answer of a regular expression on the text of a value — is universally
+quantified everywhere.
 -/
 namespace Ecal.Props.C01
 open Ecal.Engine
 
-/-- `isTriggering` looks at the kind of the event only. -/
+/-! ## the quick pre-check and its cache -/
+
+/-- `IsTriggering` looks at the kind of the event only (not at its name or state). -/
 theorem isTriggering_kind_only (rt : Root) (e1 e2 : Event) (h : e1.kind = e2.kind) :
     rt.isTriggering e1 = rt.isTriggering e2 := by
   simp [Root.isTriggering, h]
+
+/-- the pre-check over-approximates the full match at every level of the tree -/
+theorem trigAt_of_matchAt (rx : Nat → Val → Bool) (ev : Event) :
+    ∀ (ks : List Seg) (t : Idx) (l : List Rule), matchAt rx ev ks t = .ok l → l ≠ [] → trigAt ks t = true := by
+  intro ks
+  induction ks with
+  | nil =>
+    intro t l h hne
+    cases t with
+    | kind all single => simp [matchAt] at h; exact absurd h.symm (by simpa using hne)
+    | state rules keys => simp [trigAt]
+    | allLeaf rules => simp [trigAt]
+  | cons k ks ih =>
+    intro t l h hne
+    cases t with
+    | kind all single =>
+      simp only [matchAt] at h
+      simp only [trigAt]
+      generalize all ++ (alookup k single).getD [] = subs at h
+      induction subs generalizing l with
+      | nil => simp [Out.flat] at h; exact absurd h.symm (by simpa using hne)
+      | cons i rest ihs =>
+        simp only [List.map_cons] at h
+        obtain ⟨a, b, ha, hb, hl⟩ := Out.flat_ok_cons h
+        simp only [List.any_cons, Bool.or_eq_true]
+        by_cases hae : a = []
+        · right
+          apply ihs b _ hb
+          intro hbe; apply hne; simp [hl, hae, hbe]
+        · left; exact ih i a ha hae
+    | state rules keys => simp [matchAt] at h; exact absurd h.symm (by simpa using hne)
+    | allLeaf rules => simp [matchAt] at h; exact absurd h.symm (by simpa using hne)
+
+/-- An event that matches at least one rule is reported as triggering. -/
+theorem isTriggering_of_match (rx : Nat → Val → Bool) (rt : Root) (ev : Event) (l : List Rule)
+    (h : rt.matchEv rx ev = .ok l) (hne : l ≠ []) : rt.isTriggering ev = true :=
+  trigAt_of_matchAt rx ev ev.kind rt.idx l h hne
+
+/-- every cached answer is the answer of the index for that kind -/
+def CacheOK (p : Proc) : Prop := ∀ k b, alookup k p.cache = some b → b = trigAt k p.root.idx
+
+theorem isTriggering_spec (p : Proc) (ev : Event) (h : CacheOK p) :
+    (p.isTriggering ev).1 = p.root.isTriggering ev ∧ (p.isTriggering ev).2.root = p.root ∧
+      CacheOK (p.isTriggering ev).2 := by
+  unfold Proc.isTriggering
+  cases hc : alookup ev.kind p.cache with
+  | some b => exact ⟨by simp [Root.isTriggering, h _ _ hc], rfl, h⟩
+  | none =>
+    refine ⟨rfl, rfl, ?_⟩
+    intro k b hk
+    simp only [alookup_aset] at hk
+    split at hk
+    · next heq => subst heq; simp at hk; simp [← hk, Root.isTriggering]
+    · exact h k b hk
+
+theorem addEvent_inv (rx : Nat → Val → Bool) (p : Proc) (sc : Scope) (ev : Event) (h : CacheOK p) :
+    (p.addEvent rx sc ev).2.root = p.root ∧ CacheOK (p.addEvent rx sc ev).2 := by
+  have := isTriggering_spec p ev h
+  unfold Proc.addEvent
+  simp only
+  split <;> exact ⟨this.2.1, this.2.2⟩
+
+theorem after_inv (rx : Nat → Val → Bool) (sc : Scope) (hist : List Event) :
+    ∀ (p : Proc), CacheOK p → (p.after rx sc hist).root = p.root ∧ CacheOK (p.after rx sc hist) := by
+  induction hist with
+  | nil => intro p h; exact ⟨rfl, h⟩
+  | cons ev rest ih =>
+    intro p h
+    have h1 := addEvent_inv rx p sc ev h
+    have h2 := ih _ h1.2
+    simp only [Proc.after, List.foldl_cons] at h2 ⊢
+    exact ⟨h2.1.trans h1.1, h2.2⟩
+
+/-- After any history of added events (same or different names, kinds, states) the processor's
+    cached pre-check answers exactly what the index answers for the event at hand — this is what
+    the name-keyed cache violated. -/
+theorem cache_sound (rx : Nat → Val → Bool) (sc : Scope) (rt : Root) (hist : List Event) (ev : Event) :
+    (((({ root := rt } : Proc).after rx sc hist).isTriggering ev).1) = rt.isTriggering ev := by
+  have h0 : CacheOK ({ root := rt } : Proc) := by intro k b hk; simp [alookup] at hk
+  have h := after_inv rx sc hist _ h0
+  have := (isTriggering_spec _ ev h.2).1
+  rw [this, h.1]
+
+/-- Whatever was added before: the event is skipped (nil monitor) iff the index says it does not
+    trigger; otherwise it is processed against the unchanged rule index. -/
+theorem addEvent_after_history (rx : Nat → Val → Bool) (sc : Scope) (rt : Root) (hist : List Event) (ev : Event) :
+    ((({ root := rt } : Proc).after rx sc hist).addEvent rx sc ev).1 =
+      (if rt.isTriggering ev then some (processEvent rx rt sc ev) else none) := by
+  have h0 : CacheOK ({ root := rt } : Proc) := by intro k b hk; simp [alookup] at hk
+  have h := after_inv rx sc hist _ h0
+  have hs := isTriggering_spec _ ev h.2
+  unfold Proc.addEvent
+  simp only
+  rw [hs.1, h.1]
+  split
+  · simp [hs.2.1, h.1]
+  · rfl
+
+/-! ## the scope trie -/
+
+/-- After any sequence of `Add` calls, `IsAllowed p` is the flag that the last definition gave to the
+    longest prefix of `p` that has a definition; `false` if no prefix has one. -/
+theorem scope_longest_prefix (defs : List (List Seg × Bool)) (p : List Seg) :
+    (Scope.build defs).isAllowed p = (Spec.longest (Spec.lastDef defs) p).getD false := by
+  rw [Scope.isAllowed_eq]
+  congr 2
+  funext q
+  simp [Scope.build, Scope.flagAt_foldl, Scope.flagAt_empty]
+
+example : (Scope.build [([], true), (["p", "q"], false), (["p", "q", "r"], true)]).isAllowed ["p", "q", "z"] = false := by decide
+example : (Scope.build [([], true), (["p", "q"], false), (["p", "q", "r"], true)]).isAllowed ["p", "q", "r", "s"] = true := by decide
+example : (Scope.build [(["p"], true)]).isAllowed ["z"] = false := by decide
+
+/-! ## the index and the execution -/
+
+section
+variable {rx : Nat → Val → Bool} {LI : List Rule → List (String × KeyMatcher) → Prop}
+
+theorem match_eq_spec_of (law : LeafLaw rx LI) (rules : List Rule) (hwf : ∀ r ∈ rules, r.WF) (ev : Event) :
+    ∃ l, (Root.build rules).matchEv rx ev = .ok l ∧
+      ∀ x, l.count x = Spec.matchCount rx (Root.build rules).indexed ev x := by
+  have hinv := Root.build_inv rules
+  unfold Root.matchEv
+  rw [hinv.idx]
+  exact buildIdx_spec law _ (fun r hr => hwf r (hinv.sub r hr)) ev
+
+theorem processEvent_exact_of (law : LeafLaw rx LI) (rules : List Rule) (hwf : ∀ r ∈ rules, r.WF)
+    (sc : Scope) (ev : Event) :
+    ∃ l, processEvent rx (Root.build rules) sc ev = .ok l ∧ (l.map (·.name)).Nodup ∧
+      ∀ n, n ∈ l.map (·.name) ↔ Spec.fires rx (Root.build rules).indexed sc.isAllowed ev n := by
+  obtain ⟨cands, hm, hc⟩ := match_eq_spec_of law rules hwf ev
+  have hinv := Root.build_inv rules
+  -- membership in the candidate list
+  have hmem : ∀ r, r ∈ cands ↔ (r ∈ (Root.build rules).indexed ∧ Spec.kindOK r ev = true ∧ Spec.stateOK rx r ev = true) := by
+    intro r
+    rw [← List.count_pos_iff, hc r]
+    simp only [Spec.matchCount, Spec.kindOK]
+    by_cases hs : Spec.stateOK rx r ev = true
+    · simp only [hs, if_true, and_true]
+      rw [Nat.pos_iff_ne_zero, Nat.mul_ne_zero_iff, ← Nat.pos_iff_ne_zero, ← Nat.pos_iff_ne_zero,
+          List.count_pos_iff, List.countP_pos_iff]
+      simp [List.any_eq_true]
+    · simp [hs]
+  have H := eq_of_name_eq hinv.nodup
+  have Hc : ∀ a ∈ cands, ∀ b ∈ cands, a.name = b.name → a = b :=
+    fun a ha b hb => H a ((hmem a).mp ha).1 b ((hmem b).mp hb).1
+  obtain ⟨hnd, hex⟩ := execOrder_spec sc cands Hc
+  refine ⟨execOrder sc cands, by simp [processEvent, hm], hnd, ?_⟩
+  intro n
+  simp only [List.mem_map, hex, hmem, Spec.fires, Spec.triggers, Spec.scopeOK, Bool.and_eq_true,
+    Scope.isAllowedAll]
+  constructor
+  · rintro ⟨r, ⟨⟨hi, hk, hs⟩, hal, hno⟩, rfl⟩
+    refine ⟨⟨r, hi, rfl, ⟨hk, hs⟩, hal⟩, ?_⟩
+    rintro ⟨r', hi', ⟨⟨hk', hs'⟩, hal'⟩, hsup⟩
+    exact hno ⟨r', ⟨hi', hk', hs'⟩, hal', hsup⟩
+  · rintro ⟨⟨r, hi, rfl, ⟨hk, hs⟩, hal⟩, hno⟩
+    refine ⟨r, ⟨⟨hi, hk, hs⟩, hal, ?_⟩, rfl⟩
+    rintro ⟨r', ⟨hi', hk', hs'⟩, hal', hsup⟩
+    exact hno ⟨r', hi', ⟨⟨hk', hs'⟩, hal'⟩, hsup⟩
+end
 
 end Ecal.Props.C01
